@@ -14,7 +14,7 @@ EXPLANATION = (
     "WebTransportUni arm of the uni-stream acceptor is guarded by the local enable_webtransport setting. "
     "Decides these clauses, not byte-level delivery."
     " C19-b also requires OpenBi/OpenUni to hand out the stream only on a path whose last has_remaining() test of the header buffer was false; C19-c requires both AsyncRead impls of BufRecvStream to poll the transport only with an empty buffer, to report end of stream only then, and to copy out the very chunk they took.")
-RULES = "C19-a id conversions/flows (A4); C19-b header tables, stream handed out only after the header is written in full (A11/A2); C19-c buffer survives split/into_inner/wrappers, unframed readers deliver buffered bytes before end of stream (A4/A13/A3); C19-d gating (A3); shared through a proxy: C16-a under C19-b; C04-e/C04-f (poll_next_varint) under C19-b; C17-b (poll_send) under C19-a; C02-b (UnexpectedEnd conversion) under C19-b"
+RULES = "C19-a id conversions/flows (A4); C19-b header tables, stream handed out only after the header is written in full (A11/A2); C19-c buffer survives split/into_inner/wrappers, push_bytes stores the whole transport buffer (shared), unframed readers deliver buffered bytes before end of stream (A4/A13/A3); C19-d gating (A3); shared through a proxy: C16-a under C19-b; C04-e/C04-f (poll_next_varint) under C19-b; C17-b (poll_send) under C19-a; C02-b (UnexpectedEnd conversion) under C19-b"
 
 SID = "h3::webtransport::session_id::SessionId"
 STREAMID = "h3::proto::stream::StreamId"
